@@ -29,15 +29,18 @@ RULE = ("containers built by reference writers (OLE2, BIFF, ZIP with chosen flag
         "packages, pypdf-written PDFs) as encrypted/plain pairs: one mechanism switched at a time (marker stream name x case, "
         "FILEPASS at every record index, FIB bit 8 among random flag words, flag bit 0 per member incl. hidden and directory "
         "members, AES coder in data folder / header folder at each position, encryption-data element x namespace spelling vs. "
-        "marker text in names/attributes/comments, EncryptedData depth / rights.xml, RC4-40/128 AES-128/256 x empty/non-empty "
-        "password) + re-wrapped fixtures + the protected fixtures + a malformed stream (truncated / bit-flipped / random). "
+        "marker text in names/attributes/comments, EncryptedData depth / rights.xml, RC4-40/128 AES-128/256 x (user, owner) password in "
+        "{('', none), ('', ''), ('', set), (pw, set), (pw, = user), (pw, '')} so that decrypt('') reports each PasswordType outcome, "
+        "the PDFs additionally read as one shuffled sequence in one process) + re-wrapped fixtures + the protected fixtures + a malformed stream (truncated / bit-flipped / random). "
         "distinct = distinct (kind, container facts); non-trivial = the container parses far enough for the detector to look at it")
 ASSUMPTIONS = [
     "olefile: bytes -> root directory entries and stream contents; exists() is case-insensitive on the entry name",
     "zipfile: central directory -> ZipInfo (flag_bits, is_dir, file_size); read() raises RuntimeError('password required') only for "
     "members whose flag bit 0 is set, NotImplementedError for unsupported methods / features, BadZipFile for CRC/magic errors",
     "defusedxml / ElementTree: bytes -> element tree; iter() / findall('.//t') enumerate elements / proper descendants",
-    "pypdf: is_encrypted, decrypt('') result (0 = NOT_DECRYPTED); RC4 / AES handling (AES primitive: C20)",
+    "pypdf: is_encrypted, decrypt('') result (a PasswordType member: NOT_DECRYPTED / USER_PASSWORD / OWNER_PASSWORD, owner tried first); "
+    "its writer's encrypt(user, owner) (absent owner password := user password); RC4 / AES handling (AES primitive: C20)",
+    "PDF verdicts are taken in this process after resetting pypdf's AES bindings; a failing one is re-judged in a fresh interpreter",
     "the 7z container facts (coder ids per folder, header folder) are those the reference writer put in; parsing of the 7z header is C10/C12 territory",
     "consumers exhaust the generators (no throw()/close() at a yield)",
 ]
@@ -198,6 +201,16 @@ def abs_pdf(data: bytes):
     except Exception:
         d = None
     return {"isEnc": True, "dec": d}
+
+
+def _pdf_outcome_name(d):
+    from pypdf._encryption import PasswordType
+    if d is None:
+        return "raised"
+    try:
+        return PasswordType(d).name
+    except ValueError:
+        return f"value-{d}"
 
 
 # ----------------------------------------------------------------------------- reference predicates (from the specifications)
@@ -482,6 +495,8 @@ def _rand_zip(rng, force=None):
     members = []
     for n in names:
         m = {"name": n, "data": (f"{_TOKEN} {n} " * rng.randint(1, 30)).encode(), "deflate": rng.random() < 0.5}
+        if rng.random() < 0.12:      # zero-length member (file_size 0): still a member, still carries flag bits
+            m["data"], m["deflate"] = b"", False
         r = rng.random()
         if force != "enc" and r < 0.10:
             m["method"] = rng.choice([9, 1, 6, 14 if False else 19, 98])   # unsupported methods (deflate64, shrink, implode, LZ77, PPMd)
@@ -495,7 +510,8 @@ def _rand_zip(rng, force=None):
     enc_idx = None
     if force == "enc" or (force is None and rng.random() < 0.35):
         cands = [i for i, m in enumerate(members) if not m["name"].endswith("/")]
-        enc_idx = rng.choice(cands)
+        empty = [i for i in cands if not members[i]["data"]]
+        enc_idx = rng.choice(empty) if empty and rng.random() < 0.5 else rng.choice(cands)
         members[enc_idx]["flags"] = members[enc_idx].get("flags", 0) | 1 | rng.choice([0, 0x40, 0x08])
     return members, enc_idx
 
@@ -503,6 +519,16 @@ def _rand_zip(rng, force=None):
 def gen_zip_cases(ctx):
     rng = ctx.rng
     cases = []
+    # the flag bit on a member that has nothing to extract (zero length), alone and next to plain members, at each position
+    for k in (0, 1, 3):
+        for pos in range(k + 1):
+            ms = [{"name": f"p{i}.txt", "data": f"{_TOKEN} plain {i}".encode()} for i in range(k)]
+            ms.insert(pos, {"name": "empty.txt", "data": b"", "flags": 1})
+            cases.append(Case("zip", "zip", B.zip_members(ms), "encrypted", "zip.missed.flag-bit0.empty-member",
+                              f"{k} plain members and a zero-length member with flag bit 0 at index {pos}"))
+            ms2 = [dict(m, flags=0) for m in ms]
+            cases.append(Case("zip", "zip", B.zip_members(ms2), "plain", "zip.false-positive",
+                              f"{k} plain members and a zero-length plain member at index {pos}"))
     for i in range(ctx.n(200, 2500)):
         members, enc_idx = _rand_zip(rng, force=("enc" if i % 3 == 0 else "plain" if i % 3 == 1 else None))
         data = B.zip_members(members)
@@ -516,7 +542,8 @@ def gen_zip_cases(ctx):
         why = "members " + ", ".join(f"{m['name']}[flags={m.get('flags', 0):#x}{',method=' + str(m['method']) if 'method' in m else ''}]" for m in members)
         if enc_idx is not None:
             nm = members[enc_idx]["name"]
-            key = "zip.missed.flag-bit0" + (".hidden-member" if os.path.basename(nm).startswith(".") or "__MACOSX" in nm else "")
+            key = "zip.missed.flag-bit0" + (".hidden-member" if os.path.basename(nm).startswith(".") or "__MACOSX" in nm else
+                                            ".empty-member" if not members[enc_idx]["data"] else "")
         else:
             key = "zip.false-positive" + (".unsupported-method" if any("method" in m for m in members) else ".dir-flag" if any(m["name"].endswith("/") and m.get("flags", 0) & 1 for m in members) else "")
         cases.append(Case("zip", "zip", data, truth, key, why))
@@ -553,8 +580,8 @@ def gen_sz_cases(ctx):
     def files():
         return [(rng.choice(["a.txt", "b.md", "dir/c.txt"]), (f"{_TOKEN} seven " * rng.randint(1, 8)).encode())]
 
-    def add(hdr, folders, truth, key, why, **kw):
-        fs = files()
+    def add(hdr, folders, truth, key, why, fs=None, **kw):
+        fs = fs or files()
         info = {}
         data = B.sevenzip(fs, coders_per_folder=[[(c, aes_props if c[:3] == b"\x06\xf1\x07" else (b"\x5d\0\0\x10\0" if c == _SZ_LZMA else b"\x18" if c == _SZ_LZMA2 else None)) for c in f] for f in folders] if folders is not None else None,
                           encode_header=[(c, aes_props if c[:3] == b"\x06\xf1\x07" else (b"\x5d\0\0\x10\0" if c == _SZ_LZMA else b"\x18" if c == _SZ_LZMA2 else None)) for c in hdr] if hdr is not None else None,
@@ -573,6 +600,17 @@ def gen_sz_cases(ctx):
         add([a], None, "encrypted", "7z.missed.encrypted-header", f"EncodedHeader folder coder {a.hex()} (7z -mhe=on)")
         add([_SZ_COPY, a], None, "encrypted", "7z.missed.encrypted-header", f"EncodedHeader folder coders [copy, {a.hex()}]")
         add([_SZ_BCJ, a], [[_SZ_LZMA2, a]], "encrypted", "7z.missed.encrypted-header", "both header and data AES")
+    # several folders (non-solid archive: one folder per member): the AES coder in ONE folder, at every folder position —
+    # members before it are plain and would be returned if the archive were not rejected up front
+    for k in (2, 3) + ((5,) if ctx.thorough else ()):
+        many = [(f"m{i}.txt", (f"{_TOKEN} member {i} " * (i + 1)).encode()) for i in range(k)]
+        add(None, [[_SZ_COPY]] * k, "plain", "7z.false-positive.copy", f"{k} copy-coded folders", fs=many, solid=False)
+        for pos in range(k):
+            for chain in ([_SZ_AES], [rng.choice([_SZ_LZMA2, _SZ_BCJ]), rng.choice(aes_ids)]):
+                folders = [[_SZ_COPY]] * k
+                folders[pos] = chain
+                add(None, folders, "encrypted", "7z.missed.aes-data-folder.later-folder" if pos else "7z.missed.aes-data-folder",
+                    f"{k} folders, coders {[c.hex() for c in chain]} in folder {pos}, copy elsewhere", fs=many, solid=False)
     for nr in near:
         add(None, [[nr]], "plain", "7z.false-positive.near-miss-coder-id", f"data folder coder {nr.hex()} (not the AES family)")
         add([nr], None, None, "7z.synthetic", f"header folder coder {nr.hex()}")
@@ -645,6 +683,28 @@ def gen_epub_cases(ctx):
     return cases
 
 
+# (user password, owner password) combinations.  The owner password decides WHICH outcome pypdf's decrypt('') reports for a
+# file that the empty password opens: pypdf (like the specification's authentication order in qpdf / Acrobat) tries the owner
+# password first, so user '' + owner '' (what `PdfWriter.encrypt("")` and `qpdf --encrypt "" ""` write: an absent owner password
+# is replaced by the user password) reports OWNER_PASSWORD, user '' + another owner password reports USER_PASSWORD.
+_PDF_OWNER_SECRET = "owner-secret"
+
+
+def _pdf_password_combos(rng, alg, thorough):
+    """[(user, owner, truth, key, why)]"""
+    pw = rng.choice(["pw123", "x", "ü-pass"])
+    out = [("", None, "plain", f"pdf.false-positive.empty-password.owner-empty.{alg}",
+            f"{alg}, empty user password, no owner password (PdfWriter.encrypt(''): owner := user = '')"),
+           ("", _PDF_OWNER_SECRET, "plain", f"pdf.false-positive.empty-password.{alg}", f"{alg}, empty user password, owner password set"),
+           (pw, _PDF_OWNER_SECRET, "encrypted", f"pdf.missed.password.{alg}", f"{alg}, user password {pw!r}, owner password set")]
+    if alg != "AES-256":            # R6 key derivation costs ~5 s per password check with the pure-python AES
+        out += [("", "", "plain", f"pdf.false-positive.empty-password.owner-empty.{alg}", f"{alg}, empty user password, empty owner password"),
+                (pw, None, "encrypted", f"pdf.missed.password.owner-equals-user.{alg}", f"{alg}, user password {pw!r} which is the owner password too"),
+                # an empty owner password next to a real user password is "no owner password" for the writers: no claim
+                (pw, "", None, "pdf.synthetic", f"{alg}, user password {pw!r}, owner password ''")]
+    return out
+
+
 def gen_pdf_cases(ctx):
     rng = ctx.rng
     cases = []
@@ -652,18 +712,17 @@ def gen_pdf_cases(ctx):
     algs = ["RC4-40", "RC4-128", "AES-128", "AES-256-R5"] + (["AES-256"] if ctx.thorough else [])
     with _aes_for_writing():
         for ti, tx in enumerate(texts[: ctx.n(1, 2)]):
-            plain = B.pdf_plain(tx)
+            # all variants of one original carry the original's permanent file identifier (/ID[0]), as encrypted /
+            # re-saved copies of a real document do
+            doc_id = bytes(rng.randrange(256) for _ in range(16))
+            plain = B.pdf_plain(tx, doc_id)
             cases.append(Case("pdf", "pdf", plain, "plain", "pdf.false-positive.unencrypted", f"unencrypted {len(tx)}-page PDF", {"original": _b64(plain)}))
             for alg in algs:
-                for pw in ("", rng.choice(["pw123", "x", "ü-pass"])):
-                    if alg == "AES-256" and ti > 0:
-                        continue
-                    data = B.pdf_encrypt(plain, pw, "owner-secret", alg)
-                    if pw == "":
-                        cases.append(Case("pdf", "pdf", data, "plain", f"pdf.false-positive.empty-password.{alg}",
-                                          f"{alg}, empty user password", {"original": _b64(plain)}))
-                    else:
-                        cases.append(Case("pdf", "pdf", data, "encrypted", f"pdf.missed.password.{alg}", f"{alg}, user password {pw!r}"))
+                if alg == "AES-256" and ti > 0:
+                    continue
+                for user, owner, truth, key, why in _pdf_password_combos(rng, alg, ctx.thorough):
+                    data = B.pdf_encrypt(plain, user, owner, alg, doc_id)
+                    cases.append(Case("pdf", "pdf", data, truth, key, why, {"original": _b64(plain)} if truth == "plain" else None))
     return cases
 
 
@@ -809,13 +868,32 @@ def _model_requests(case):
     if k == "pdf":
         from sharepoint2text.parsing.extractors.pdf.pdf_extractor import read_pdf
         _reset_pypdf_aes()
+        if case.truth is not None:
+            _note_pdf(case)
         n, e = _consume(read_pdf, case.data, "case.pdf")     # first: lets the library patch AES in by itself
         try:
             a = abs_pdf(case.data)
         except Exception:
             return None
+        _PDF_OUTCOMES_SEEN.add("unencrypted" if not a["isEnc"] else _pdf_outcome_name(a["dec"]))
         return dict({"op": "c08.pdf"}, **a), {"rej": _cls(e) == "encrypted"}, (k, repr(a), len(case.data))
     return None
+
+
+_PDF_OUTCOMES_SEEN = set()
+
+
+def _pdf_outcome_coverage(ctx):
+    """closed-world check of the generator itself: every outcome pypdf's decrypt('') can report (the PasswordType
+    inventory the Lean theorem C08_pdf_password_types quantifies over) was produced by a generated PDF in this run"""
+    from pypdf._encryption import PasswordType
+    want = {m.name for m in PasswordType} | {"unencrypted"}
+    missing = sorted(want - _PDF_OUTCOMES_SEEN)
+    ctx.coverage["pdf_decrypt_outcomes"] = sorted(_PDF_OUTCOMES_SEEN)
+    if missing:
+        return [Broken("correspondence", "c08.pdf.outcome-coverage",
+                       f"no generated PDF makes decrypt('') report {missing} (generated: {sorted(_PDF_OUTCOMES_SEEN)})")]
+    return []
 
 
 def _validate_builders():
@@ -881,11 +959,13 @@ def correspondence(ctx):
         if metas:
             ctx.sample({"kind": metas[i][0].kind, "why": metas[i][0].why[:160], "impl": reals[i], "model": outs[i]})
     ctx.coverage["mismatches"] = bad
+    broken += _pdf_outcome_coverage(ctx)
     # the property statement itself on the real code, for the structured pairs (cheap entry points here; all of them in `search`)
     claimed = [c for c in cases if c.truth is not None]
     violations += _oracle(ctx, claimed, entries=("direct",), cli_every=0)
     sub = [c for i, c in enumerate(claimed) if i % ctx.n(6, 2) == 0 or "fixture" in c.key]
     violations += _oracle(ctx, sub, entries=("read_file",), cli_every=ctx.n(5, 2))
+    violations += _pdf_sequence_oracle(ctx, [c for c in claimed if c.kind == "pdf"])
     return {"broken": broken, "violations": violations}
 
 
@@ -917,13 +997,78 @@ def _cli_once(argv):
     return rc, out.getvalue(), err.getvalue()
 
 
-def _check_case(c: Case, entry: str, td: str):
-    """None when the property holds for this case through this entry point, else a message"""
+# ---- process history of the PDF path.  The library keeps state between calls (pypdf bindings it patches, whatever a change
+# adds); this process resets only what it knows about (_reset_pypdf_aes).  So a PDF verdict observed here may depend on the
+# PDFs read before: every failing PDF case is re-judged in a FRESH interpreter (the replay command), alone and after the
+# recorded history, and reported with the replay that actually fails there.
+_PDF_HISTORY: list = []
+_PDF_HISTORY_SEEN: set = set()
+
+
+def _note_pdf(c):
+    import hashlib
+    h = hashlib.blake2b(c.data, digest_size=12).digest()
+    if h not in _PDF_HISTORY_SEEN:
+        _PDF_HISTORY_SEEN.add(h)
+        _PDF_HISTORY.append(c)
+
+
+def _fresh_replay(rep: dict):
+    """run `run.py C08 --replay` on the payload in a new interpreter: True = holds, False = fails, None = no answer"""
+    import json
+    import subprocess
+    import sys
+    import run as R
+    with tempfile.TemporaryDirectory(prefix="s2t_c08_") as td:
+        fn = os.path.join(td, "replay.json")
+        with open(fn, "w") as fh:
+            json.dump({"property": "C08", "replay": rep}, fh)
+        try:
+            p = subprocess.run([sys.executable, os.path.join(R.HERE, "run.py"), "C08", "--replay", fn], capture_output=True, text=True,
+                               timeout=600, env=dict(os.environ, S2T_REPO=R.REPO))
+        except subprocess.TimeoutExpired:
+            return None
+    if p.stdout.startswith("REPLAY-HOLDS"):
+        return True
+    if p.stdout.startswith("REPLAY-FAILS"):
+        return False
+    return None
+
+
+def _seq_replay(steps, entry):
+    return {"kind": "pdf-sequence", "key": steps[-1].key, "entry": entry, "steps": [x.replay(entry) for x in steps]}
+
+
+def _explain_pdf_failure(c: Case, entry: str, msg: str, history=None) -> Violation:
+    """the violation to report for a PDF case that failed in this process, with a replay that fails in a fresh one"""
+    single = Violation(c.key, f"{msg} — input: {c.why}", c.replay(entry))
+    if _fresh_replay(c.replay(entry)) is False:
+        return single
+    hist = [h for h in (list(_PDF_HISTORY) if history is None else history) if h.data != c.data]
+    key = "pdf.history-dependent." + c.key.split(".", 1)[1]
+    if hist and _fresh_replay(_seq_replay(hist + [c], entry)) is False:
+        steps = hist + [c]
+        for h in list(reversed(hist))[:16]:                  # is one predecessor enough?
+            if _fresh_replay(_seq_replay([h, c], entry)) is False:
+                steps = [h, c]
+                break
+        return Violation(key, f"{msg} — only after the process has read {len(steps) - 1} other PDF(s) (last: {steps[-2].why}); "
+                              f"alone, in a fresh process, the same input is handled correctly; input: {c.why}", _seq_replay(steps, entry))
+    # not reproducible in a fresh interpreter from what was recorded: say so, keep the observation
+    return Violation(key, f"{msg} — observed in the checking process only (not reproduced in a fresh interpreter, neither alone nor "
+                          f"after the {len(hist)} PDFs read before); input: {c.why}", _seq_replay(hist + [c], entry))
+
+
+def _check_case(c: Case, entry: str, td: str, fresh: bool = True):
+    """None when the property holds for this case through this entry point, else a message.
+    fresh=False: keep the process state (pypdf AES bindings) earlier calls left behind"""
     import sharepoint2text
     X = _lib()
     path = os.path.join(td, "case." + c.ext)
     if c.kind == "pdf":
-        _reset_pypdf_aes()
+        _note_pdf(c)
+        if fresh:
+            _reset_pypdf_aes()
     if entry == "direct":
         res, e = _collect(_extractor_for(c.ext), c.data, "case." + c.ext)
     else:
@@ -961,7 +1106,9 @@ def _check_case(c: Case, entry: str, td: str):
             return f"plain input rejected as encrypted via {entry}: {str(e)[:100]}"
         if c.kind == "pdf" and c.facts and "original" in c.facts and c.key.startswith("pdf.false-positive.empty-password"):
             from sharepoint2text.parsing.extractors.pdf.pdf_extractor import read_pdf
-            orig, e0 = _collect(read_pdf, base64.b64decode(c.facts["original"]), "case.pdf")
+            odata = base64.b64decode(c.facts["original"])
+            _note_pdf(Case("pdf", "pdf", odata, "plain", "pdf.false-positive.unencrypted", "unencrypted original", {"original": c.facts["original"]}))
+            orig, e0 = _collect(read_pdf, odata, "case.pdf")
             if e is not None or e0 is not None:
                 return f"empty-password PDF does not extract ({type(e).__name__ if e else None}) although the original does ({type(e0).__name__ if e0 else 'ok'})"
             if _pdf_texts(res) != _pdf_texts(orig):
@@ -985,7 +1132,48 @@ def _oracle(ctx, cases, entries=("direct", "read_file"), cli_every=3):
                 ctx.count(f"oracle/{entry}/{c.truth}")
                 if msg and c.key not in seen:
                     seen.add(c.key)
-                    out.append(Violation(c.key, f"{msg} — input: {c.why}", c.replay(entry)))
+                    if c.kind == "pdf" and entry != "cli":
+                        out.append(_explain_pdf_failure(c, entry, msg))
+                    else:
+                        out.append(Violation(c.key, f"{msg} — input: {c.why}", c.replay(entry)))
+    return out
+
+
+def _run_sequence(steps, td, entry="direct"):
+    """the cases one after the other in ONE process state (fresh at the start); (index, message) of the first step for
+    which the property fails, or None"""
+    _reset_pypdf_aes()
+    for i, c in enumerate(steps):
+        msg = _check_case(c, entry, td, fresh=False)
+        if msg:
+            return i, msg
+    return None
+
+
+def _pdf_sequence_oracle(ctx, pdfs):
+    """process histories: the verdict on a PDF must not depend on which PDFs (other algorithm, other password outcome, the
+    unencrypted or the protected version of the same document) the process read before.  The generated PDFs are read as
+    shuffled sequences without resetting anything in between; a failing step is re-judged in a fresh interpreter."""
+    out = []
+    pdfs = [c for c in pdfs if ".AES-256" not in c.key + "." or c.key.endswith("AES-256-R5")]   # R6: ~5 s per check
+    if len(pdfs) < 2:
+        return out
+    rng = ctx.rng
+    with tempfile.TemporaryDirectory(prefix="s2t_c08_") as td:
+        for rnd in range(ctx.n(2, 6)):
+            order = list(pdfs)
+            rng.shuffle(order)
+            if rnd % 2:     # each file twice in a row as well (state left by the file itself)
+                order = [c for c in order for _ in (0, 1)]
+            try:
+                r = _run_sequence(order, td)
+            except corpus.Timeout:
+                r = None
+            ctx.count("oracle/pdf-sequence/steps", len(order))
+            if r is not None:
+                i, msg = r
+                out.append(_explain_pdf_failure(order[i], "direct", msg))
+                break
     return out
 
 
@@ -1022,6 +1210,17 @@ def search(ctx, broken):
 
 def replay(ctx, payload):
     rep = payload.get("replay", {})
+    if rep.get("kind") == "pdf-sequence":
+        steps = []
+        for st in rep["steps"]:
+            c = Case(st["kind"], st["ext"], base64.b64decode(st["data_b64"]), st["truth"], st["key"], st["why"])
+            c.facts = st.get("facts")
+            steps.append(c)
+        with tempfile.TemporaryDirectory(prefix="s2t_c08_") as td:
+            r = _run_sequence(steps, td, rep.get("entry", "direct"))
+        if r is None:
+            return True, f"property holds on every step of the recorded sequence of {len(steps)} PDFs"
+        return False, f"step {r[0] + 1} of {len(steps)} ({steps[r[0]].why}): {r[1]}"
     if "data_b64" not in rep:
         return False, "replay names a broken obligation, not an input: " + payload.get("what", "")
     c = Case(rep["kind"], rep["ext"], base64.b64decode(rep["data_b64"]), rep["truth"], rep["key"], rep["why"])
